@@ -12,23 +12,35 @@ for l in open('/verif/properties.jsonl'):
 # one-line descriptions of changes earlier reviewers already proposed (round 3 asks for different ones);
 # these describe earlier *changes*, nothing about /verif's machinery
 TAKEN = {
- "C04": ["array re-declaration keeps old contents", "a faulting double qalloc leaks a physical qubit / marks it used before the check"],
+ "C04": ["array re-declaration keeps old contents", "a faulting double qalloc leaks a physical qubit / marks it used before the check",
+         "unused physical qubit = size of the used set", "empty array returned to the host as [None]", "bnz taken only for positive values"],
  "C05": ["register-indexed array element compiled as index 0", "ret_arr copies / snapshots the array", "loop_until counter released before the exit condition is built",
-         "addm implemented as one conditional subtraction"],
- "C06": ["template value 0 left unsubstituted", "builder reset moved between compile() and commit", "instantiate() stops substituting after each name was seen once"],
- "C08": ["branch to the end label retargeted wrongly", "scratch electron register never released", "scratch register chosen from the wrong bookkeeping set"],
+         "addm implemented as one conditional subtraction",
+         "reset() keeps the registers-to-return list", "flush with only array declarations pending is skipped", "loop_until gives up one try early"],
+ "C06": ["template value 0 left unsubstituted", "builder reset moved between compile() and commit", "instantiate() stops substituting after each name was seen once",
+         "compile() clears return lists by hand (M registers never released)", "templated rotation emitted before its qubit register is set", "early return for template-free subroutines skips the reset"],
+ "C08": ["branch to the end label retargeted wrongly", "scratch electron register never released", "scratch register chosen from the wrong bookkeeping set",
+         "debug=True collapses the SWAP expansion", "cphase with the electron as second operand not swapped", "hardware angle rescaling 2*d instead of 2**d"],
  "C09": ["NV relocation does not update the handle", "_has_virtual_address truthiness (physical qubit 0)", "non-sequential keep takes consecutive IDs from the first hole",
-         "measure() deactivates the handle before building commands"],
+         "measure() deactivates the handle before building commands",
+         "pop(0) of the pending response list", "min-fidelity retry clean-up frees IDs 0..n-1", "NV just-initialised shortcut fires for another qubit"],
  "C10": ["NV move-to-memory corrects the wrong qubit", "recv_rsp_with_info drops expect_phi_plus", "correction block applied once after the loop",
-         "measure-directly post-processing reads pair 0's Bell state for every pair"],
- "C11": ["remote rotations dropped when the local ones are zero", "pop(0) of the pending response list", "qlink-1.0 conversion copies a local angle into a remote field"],
- "C12": ["pop(0) of the pending response list", "pairs_left decremented before the handler", "directionality flag lost for measure responses"],
+         "measure-directly post-processing reads pair 0's Bell state for every pair",
+         "PSI_MINUS flip list wrong for MX/MY", "no wait/correction for a sequential single pair", "qlink-1.0 measure response loses its Bell state"],
+ "C11": ["remote rotations dropped when the local ones are zero", "pop(0) of the pending response list", "qlink-1.0 conversion copies a local angle into a remote field",
+         "recv_measure passes the remote socket id", "deferred keep response still consumes a pair slot"],
+ "C12": ["pop(0) of the pending response list", "pairs_left decremented before the handler", "directionality flag lost for measure responses",
+         "_has_virtual_address truthiness", "wait_all resumes when any entry is defined", "pending-response loop keeps iterating after a handled response"],
  "C13": ["stop removes the virtual instead of the physical address", "subroutine ids reused while in flight", "qfree removes the virtual address from the used set",
-         "keep response marks the physical qubit before the busy check"],
- "C14": ["empty-body loop keeps its register", "condition temporary released too early", "a finished EPR receive keeps one register", "loop_until counter released too early"],
+         "keep response marks the physical qubit before the busy check",
+         "Arrays() shares a mutable default dict", "physical qubit marked used before the checks of qalloc"],
+ "C14": ["empty-body loop keeps its register", "condition temporary released too early", "a finished EPR receive keeps one register", "loop_until counter released too early",
+         "M registers only reclaimed if listed for return", "add(<register>) releases the register of the caller", "index temporary of a future-indexed element never released"],
  "C18": ["disconnect pops the peer's receive callback", "connect clears the inbox after the socket is visible", "recv pops from a snapshot and writes it back",
-         "disconnect removes the wrong key from the remote set"],
- "C20": ["parity_meas flips back by the first qubit's basis", "negative angles folded with fmod", "parity_meas keeps its ancilla"],
+         "disconnect removes the wrong key from the remote set",
+         "connect records itself as remote only if the peer is not open", "recv_structured ignores block=False", "broadcast recv pops every pending socket and returns the last"],
+ "C20": ["parity_meas flips back by the first qubit's basis", "negative angles folded with fmod", "parity_meas keeps its ancilla",
+         "toffoli: last T-dagger and CNOT swapped", "trivial Pauli string returns before the sign flip", "single-qubit parity outcome kept in a register"],
 }
 
 taken = "".join(f"\n  - {t}" for t in TAKEN.get(pid, []))
@@ -51,5 +63,7 @@ For EACH change i (1..{n}) deliver, in the worktree root:
   - {wt}/change_i.diff : a unified diff (`git -C {wt} diff > change_i.diff` taken with ONLY that change applied; then `git -C {wt} checkout -- netqasm` before starting the next change so that the changes are independent),
   - {wt}/demo_i.py : a small self-contained demonstration program (plain python script using only the repository and the standard library/numpy; it may subclass the repository's base classes such as Executor, QNodeController, BaseNetQASMConnection, BaseNetworkStack to run things) that exits with status 0 on the UNCHANGED tree and exits non-zero (assertion failure) when change_i.diff is applied,
   - a few lines in {wt}/NOTES.md: what the change is, which part of the property it breaks, and exactly what it needs in order to manifest.
+
+Finally, add a section "Observations on the unchanged tree" to NOTES.md: anything you noticed while reading or experimenting where the UNCHANGED code already seems to violate the property (which call, which input, what happens) -- a few lines each, or "none".
 
 Before finishing, VERIFY for each change: (a) with the change applied, the test suite still reports 171 passed; (b) with the change applied demo_i.py fails; (c) with the change reverted (`git -C {wt} checkout -- netqasm`) demo_i.py passes. Leave the worktree with the netqasm/ directory reverted to unchanged (only the change_*.diff, demo_*.py and NOTES.md files added). Report briefly what you produced and the outcome of (a),(b),(c) for each change.""")
